@@ -33,17 +33,11 @@ def alphabet(client, sids=(1,), push=False, extra=()):
 
 
 def build_alphabet(client):
-    """operations used to BUILD the catalogue (a subset: the state-changing ones)"""
-    A = []
-    for kind in ('req', 'resp', 'info', 'trailers'):
-        for end in (False, True):
-            A.append(('send_headers', 1, kind, end))
-            A.append(('HEADERS', 1, kind, end))
-    for end in (False, True):
-        A.append(('send_data', 1, end))
-        A.append(('DATA', 1, end))
-    A += [('reset', 1), ('RST', 1), ('open_counts',), ('close',), ('GOAWAY',)]
-    return A
+    """operations used to BUILD the catalogue: the whole one-stream alphabet except the
+    SETTINGS operations (their pending queue is unbounded; C11 covers them), so that an
+    operation which is a no-op today but state-changing after a code change still gets its
+    successors explored"""
+    return [o for o in alphabet(client) if o[0] not in ('settings', 'SETTINGS')]
 
 
 def build_alphabet_push(client):
@@ -92,23 +86,41 @@ def op_label(op):
     return '.'.join(str(x) for x in op)
 
 
-def select_entries(entries, tier, seed, quick_depth=2, quick_sample=12):
-    """quick: every entry up to quick_depth plus a seeded sample of deeper ones"""
+def select_entries(entries, tier, seed, quick_depth=2, quick_sample=12, thorough_cap=350):
+    """quick: every entry up to quick_depth plus a seeded sample of deeper ones;
+    thorough: everything, capped (shallow entries first, then a seeded sample)"""
+    rng = random.Random(seed)
     if tier == 'thorough':
-        return entries
+        if len(entries) <= thorough_cap:
+            return entries
+        shallow = [e for e in entries if e[1] <= quick_depth]
+        deep = [e for e in entries if e[1] > quick_depth]
+        rng.shuffle(deep)
+        return shallow + deep[:max(0, thorough_cap - len(shallow))]
     shallow = [e for e in entries if e[1] <= quick_depth]
     deep = [e for e in entries if e[1] > quick_depth]
-    rng = random.Random(seed)
     rng.shuffle(deep)
     return shallow + deep[:quick_sample]
 
 
 def entry_shards(tag, client, entries, alpha, judge, upgrade=False, cfg=None, budget=120.0,
-                 known_keys=None, check_refused=False):
+                 check_refused=False, cat=None, build_ops=None):
+    """one shard per catalogue entry; `cat` = (entries, closed, keys) enables the closure
+    check: the successor of every non-refused step by a catalogue-building operation must
+    be a state of the catalogue (valid when the catalogue is closed, or for entries below
+    its depth bound)"""
     out = []
     role = 'client' if client else 'server'
+    keys = closed = None
+    max_depth = 0
+    if cat is not None:
+        all_entries, closed, keys = cat
+        max_depth = max(d for _h, d in all_entries)
+        build_ops = set(build_ops or [])
     for history, depth in entries:
-        def mk(history=history):
+        closure_here = keys is not None and (closed or depth < max_depth)
+
+        def mk(history=history, closure_here=closure_here):
             def h():
                 with h2h.native():
                     ctx = ops.replay(client, history, cfg=cfg, upgrade=upgrade)
@@ -121,8 +133,15 @@ def entry_shards(tag, client, entries, alpha, judge, upgrade=False, cfg=None, bu
                     same, diffs = fingerprint.same(before, fingerprint.snapshot(ctx.me))
                     check(same, 'refused-call-changes-state:' + op[0],
                           (op_label(op), [d.split('.', 1)[-1] for d in diffs][:6]))
+                if closure_here and op in build_ops and out_.cls[0] not in ('refused', 'crash'):
+                    with h2h.native():
+                        ctx.me.data_to_send()
+                        k = catalogue.state_key(ctx)
+                        inside = k in keys
+                    check(inside, 'successor-outside-catalogue:' + op[0], op_label(op))
             return h
         out.append(Shard('%s/%s/%s' % (tag, role, hist_name(history)), mk(), budget=budget,
-                         params={'history': [list(o) for o in history], 'depth': depth},
+                         params={'history': [list(o) for o in history], 'depth': depth,
+                                 'closure_checked': bool(closure_here)},
                          twin=False))
     return out
